@@ -433,7 +433,8 @@ def simu_cases(draw):
                 bc_seed=draw(st.integers(0, 999)), dval=draw(st.integers(-4, 4)) / 2.0,
                 dlin=draw(st.integers(-2, 2)) / 2.0, load=draw(st.sampled_from(["none", "nodal", "surf", "volume", "nodal+surf"])),
                 lval=draw(st.integers(-6, 6)) / 2.0, dt=draw(st.sampled_from([0.05, 0.25, 1.0])),
-                init_seed=draw(st.integers(0, 999)), move=draw(st.sampled_from([None, "rotate", "stretch"])))
+                init_seed=draw(st.integers(0, 999)), move=draw(st.sampled_from([None, "rotate", "stretch"])),
+                rewind=draw(st.booleans()))
     if problem == "thermal":
         case.update(k=draw(st.integers(1, 20)) / 4.0, c=draw(st.integers(1, 12)) / 4.0,
                     thickness=1.0 if dim == 1 else draw(st.sampled_from([1.0, 0.5, 2.5])),
@@ -617,15 +618,34 @@ def check_simu(case, rec):
                 simu.Solver_Set_Hyperbolic_Algorithm(dt, algo=AlgoType(case["algo"]))
                 simu._Set_solutions(simu.problemType, u0.copy(), v0.copy(), a0.copy())
         s = sigv if scheme == "hyperbolic" else sig
-        for step in range(2):
+
+        def states(tag):
+            cmp("solution" + tag, weak.u, ded.thermal if problem == "thermal" else ded.displacement, s)
+            if scheme == "parabolic":
+                cmp("rate" + tag, weak.v, ded.thermalDot, s)
+            else:
+                cmp("rate" + tag, weak.v, ded.speed, s)
+                cmp("accel" + tag, weak.a, ded.accel, s)
+
+        rewind = bool(case.get("rewind"))
+        for step in range(3 if rewind else 2):
             ud = np.array(ded.Solve(), float)
             uw = np.array(weak.Solve(), float)
             cmp("solution", uw, ud, s)
-            if scheme == "parabolic":
-                cmp("rate", weak.v, ded.thermalDot, s)
-            else:
-                cmp("rate", weak.v, ded.speed, s)
-                cmp("accel", weak.a, ded.accel, s)
+            states("")
+            if rewind:
+                ded.Save_Iter()
+                weak.Save_Iter()
+        if rewind:
+            # both simulations taken back to their first saved step, compared there and one step further (the dedicated
+            # simulations' own save / restore is covered by C15)
+            rec.label("rewind")
+            ded.Set_Iter(0)
+            weak.Set_Iter(0)
+            states("_restored")
+            ded.Solve()
+            weak.Solve()
+            states("_after_restore")
     # ---- the same two simulations after their (shared) mesh was moved in place: the forms are integrated again on the new
     # geometry, by the same form and field objects (the dedicated simulations themselves are covered by C14)
     mv = case.get("move")
